@@ -12,12 +12,23 @@ def local_edges(F, f):
         else:
             for g in F.generic_candidates(t["callee"]):
                 out.append((g, t["span"]))
+    import json
+    import re
     for b in f.blocks:
         for st in b["stmts"]:
             if st["k"] == "assign" and st["rv"]["k"] == "aggregate" and st["rv"].get("agg") == "closure":
                 g = F.fn_by_path.get(st["rv"]["path"])
                 if g is not None:
                     out.append((g, st["span"]))
+        # crate functions used as *values* (`.map(Self::new)`, `fold(a, helper)`): whoever receives them may call them
+        blobs = [(json.dumps(st_), st_.get("span")) for st_ in b["stmts"]]
+        if b["term"]["k"] == "call":
+            blobs.append((json.dumps(b["term"]["args"]), b["term"]["span"]))
+        for blob, sp in blobs:
+            for m in re.finditer(r'"fn": \{"path": "([^"]+)"', blob):
+                g = F.fn_by_path.get(m.group(1))
+                if g is not None:
+                    out.append((g, sp))
     return out
 
 
